@@ -28,10 +28,12 @@ Section DetC.
     { intros r'. destruct (Nat.eq_dec r' r) as [->|N]; [rewrite Es; apply HF|now rewrite Eo]. }
     assert (Rc : forall o l0, rchain g o l0 <-> rchain g' o l0).
     { intros o' l'; revert o'; induction l' as [|x l' IH]; intros o'; cbn; [tauto|]. rewrite Enx, Lr, IH. tauto. }
-    repeat split; auto; try (apply Rc).
-    - intros (S & H1 & H2 & H3). exists S. split; [now apply Rc|]. split; auto. intros L HL. apply H3. now apply Rc.
-    - revert o; induction S as [|x S IH]; intros o; cbn; [tauto|]. intros (A&B&C&D). repeat split; auto. now apply IH.
-    - revert o; induction S as [|x S IH]; intros o; cbn; [tauto|]. intros (A&B&C&D). repeat split; auto. now apply IH.
+    assert (Af : forall o r', after g o r' -> after g' o r').
+    { intros o r' (S & H1 & H2 & H3). exists S. split; [now apply Rc|]. split; auto. intros L HL. apply H3. now apply Rc. }
+    assert (Gc : forall o S, gchain c g o S <-> gchain c g' o S).
+    { intros o S. split; apply gchain_ext; try (apply Nat.le_refl); intros; split; reflexivity. }
+    split; [exact Eo|]. split; [exact Es|]. split; [exact Lr|]. split; [exact Enx|]. split; [exact Esl|].
+    split; [exact Rc|]. split; [exact Af|exact Gc].
   Qed.
 
   Lemma scan_ok_recfield g r F h ss n1 : r < List.length (recs g) -> hlen h <= n1 ->
@@ -40,8 +42,8 @@ Section DetC.
     scan_ok c (upd_rec g r F) (mkH n1 (slotv h) (lastw h) (att h) (linked h) (scan h) (freeh h) (flbad h)) ss.
   Proof.
     intros Hr Hn HF S. destruct (recfield_facts g r F Hr HF) as (Eo & Es & Lr & Enx & Esl & Rc & Af & Gc).
-    apply (scan_ok_frame c g (upd_rec g r F) h _ ss); cbn [hlen slotv lastw att linked]; auto.
-    - intros s; left; auto.
+    apply (scan_ok_frame c g (upd_rec g r F) h _ ss); cbn [hlen slotv lastw att linked];
+      [exact Hn|intros s; left; auto|exact Af|left; reflexivity|intros n0 _; apply Enx| |exact S].
     - intros s k Hl Hk. split; auto. split; auto. intros n0 o S0 b i E Hin Hg Hi. split; auto. now apply Gc.
   Qed.
 
@@ -74,7 +76,7 @@ Section DetC.
     - intros t' r' Ht. destruct (F t') as (E&_). rewrite E in Ht. auto.
     - exact J4.
     - intros t' r' bt Ht. destruct (F t') as (_&E&_). rewrite E in Ht. destruct (J5 t' r' bt Ht) as (X1&X2&X3&X4&X5&X6).
-      assert (r' <> r). { intros ->. destruct J1 as (L & H1 & _). destruct Raft as (S & A1 & A2 & A3). apply (X3 L H1). apply (A3 L H1). rewrite (rchain_fun _ _ _ _ A1 H1) in A2. exact A2. }
+      assert (r' <> r). { intros ->. destruct J1 as (L & H1 & _). destruct Raft as (S & A1 & A2 & A3). apply (X3 L H1). apply (A3 L H1). exact A2. }
       rewrite (Eo r' H). repeat split; auto.
       + intros L HL. apply X3. now apply Rc.
       + intros t'' bt' Ht''. destruct (F t'') as (_&E'&_). rewrite E' in Ht''. eauto.
@@ -136,7 +138,7 @@ Section DetC.
     - intros t' r' Ht. destruct (F t') as (E&_). rewrite E in Ht. auto.
     - exact J4.
     - intros t' r' bt Ht. destruct (F t') as (_&E&_). rewrite E in Ht. destruct (J5 t' r' bt Ht) as (X1&X2&X3&X4&X5&X6).
-      assert (r' <> r). { intros ->. destruct J1 as (L & H1 & _). destruct Raft as (S & A1 & A2 & A3). apply (X3 L H1). apply (A3 L H1). rewrite (rchain_fun _ _ _ _ A1 H1) in A2. exact A2. }
+      assert (r' <> r). { intros ->. destruct J1 as (L & H1 & _). destruct Raft as (S & A1 & A2 & A3). apply (X3 L H1). apply (A3 L H1). exact A2. }
       rewrite (Eo r' H). repeat split; auto.
       + intros L HL. apply X3. now apply Rc.
       + intros t'' bt' Ht''. destruct (F t'') as (_&E'&_). rewrite E' in Ht''. eauto.
